@@ -17,6 +17,7 @@ import z3
 PROPERTY = "C05"
 LEVEL = "model_checking"
 NEEDS_BUILD = True
+CONFORMANCE_BUILD = True
 FUNCTIONS = [
     ("esutil/stat/util.py", "_dohist"),
     ("esutil/stat/util.py", "histogram"),
@@ -184,7 +185,7 @@ def conformance():
     import numpy as np
     import importlib
     import sys
-    sys.path.insert(0, loader.repo())
+    sys.path.insert(0, loader.real_repo())
     try:
         real = importlib.import_module("esutil.stat.util")
     finally:
